@@ -19,25 +19,60 @@ func rep(n int, f func(i int) string, sep string) string {
 	return sb.String()
 }
 
+// stmtCost measures how many instructions the compiler currently emits for one occurrence of
+// stmt inside a numeric for body (the ladders are calibrated in instructions, not statements).
+var stmtCostCache = map[string]int{}
+
+func stmtCost(stmt string) int {
+	if c, ok := stmtCostCache[stmt]; ok {
+		return c
+	}
+	size := func(m int) int {
+		fp, _, _ := compileSrc("local a, b = 0, 0\nfor i = 1, 2 do\n"+strings.Repeat(stmt+"\n", m)+"end\nreturn a\n", "cost")
+		if fp == nil {
+			return 0
+		}
+		return len(fp.Code)
+	}
+	c := (size(20) - size(10)) / 10
+	if c < 1 {
+		c = 1
+	}
+	stmtCostCache[stmt] = c
+	return c
+}
+
+// loopBody returns statements that compile to exactly n instructions (or as close below as the
+// current per-statement costs allow).
+func loopBody(n int) string {
+	c1 := stmtCost("a = a + 1")
+	c2 := stmtCost("b = 1")
+	m := n / c1
+	r := 0
+	if c2 > 0 {
+		r = (n - m*c1) / c2
+	}
+	return strings.Repeat("a = a + 1\n", m) + strings.Repeat("b = 1\n", r)
+}
+
 func loopSrc(kind string, n int) string {
-	body := strings.Repeat("a = a + 1\n", n)
+	body := loopBody(n)
+	pre := "local a, b = 0, 0\n"
 	switch kind {
 	case "numfor":
-		return "local a = 0\nfor i = 1, 2 do\n" + body + "end\nreturn a\n"
+		return pre + "for i = 1, 2 do\n" + body + "end\nreturn a\n"
 	case "while":
-		return "local a = 0\nlocal c = 0\nwhile c < 2 do\nc = c + 1\n" + body + "end\nreturn a\n"
+		return pre + "local c = 0\nwhile c < 2 do\nc = c + 1\n" + body + "end\nreturn a\n"
 	case "genfor":
-		return "local a = 0\nfor k in pairs({1, 2}) do\n" + body + "end\nreturn a\n"
+		return pre + "for k in pairs({1, 2}) do\n" + body + "end\nreturn a\n"
 	case "repeat":
-		return "local a = 0\nlocal c = 0\nrepeat\nc = c + 1\n" + body + "until c >= 2\nreturn a\n"
+		return pre + "local c = 0\nrepeat\nc = c + 1\n" + body + "until c >= 2\nreturn a\n"
 	case "ifelse":
-		return "local a = 0\nif a == 0 then\n" + body + "else\na = -1\nend\nreturn a\n"
+		return pre + "if a == 0 then\n" + body + "else\na = -1\nend\nreturn a\n"
 	case "gotoback":
-		return "local a = 0\nlocal c = 0\n::top::\nc = c + 1\n" + body + "if c < 2 then goto top end\nreturn a\n"
+		return pre + "local c = 0\n::top::\nc = c + 1\n" + body + "if c < 2 then goto top end\nreturn a\n"
 	case "gotofwd":
-		return "local a = 0\ndo goto done end\n" + body + "::done::\nreturn a\n"
-	case "andor":
-		return "local a = 0\nlocal f = function() " + body + " return 1 end\nlocal b = a == 0 and f() or 2\nreturn b\n"
+		return pre + "do goto done end\n" + body + "::done::\nreturn a\n"
 	}
 	return ""
 }
@@ -144,7 +179,7 @@ func adversarial(c *ctx, tier string) {
 		"tablepos": {25500, 25550, 25551, 25601}, "tablepos_open": {25550, 25551}, "setlist_then_moves": {25551},
 	}
 	loops := []string{"numfor", "while", "genfor", "repeat", "ifelse", "gotoback", "gotofwd"}
-	loopN := []int{131060, 131068, 131070, 131072}
+	loopN := []int{131040, 131064, 131068, 131070, 131072}
 	if tier == "thorough" {
 		nested := map[string][]int{"nest_func": {190, 250}}
 		for k, v := range nested {
